@@ -87,7 +87,7 @@ def _matrix_worker(task):
     if RD.tiered(case) and rng.random() < 0.5:
         RD.set_lam(2.0 ** -80)
     if rng.random() < 0.5:
-        ns = RD.near_symmetric(case, rng)         # square unfoldings that are symmetric up to ~1e-6 (exact outcomes unchanged)
+        ns = RD.near_symmetric(case, rng, exact=bool(rng.integers(2)))         # square unfoldings symmetric exactly / up to ~1e-6 (exact outcomes unchanged)
         if ns is not None:
             case = ns
     if case['dir'] == 'ltr' and rng.random() < 0.4:
